@@ -177,24 +177,21 @@ func c03Decode(c *Ctx) {
 	a, rj, _ := guardSets(c, val, 60)
 	want := stepSet(12, 48, 3)
 	// the validator continues with a per-word loop, so reachability of the nil return is an over-approximation; decide the size guard on the loop header instead
+	// (the loop in the validator, or in a first-violation scanner `indexUnknownWord(mnemonic)` it tests against "none")
 	vb := ana.NewBuilder(c.P, val)
-	loops := rangeLoops(vb)
-	var wl *rangeLoop
-	for i := range loops {
-		if loops[i].Coll.IsParam(0) {
-			wl = &loops[i]
-		}
+	elem := "load(iaddr(p0, bin<+>(ind<+1>(-1), 1)))"
+	wordsOK := func(b2 *ana.Builder, l *rangeLoop) bool {
+		return l.Coll.IsParam(0) && forAll(b2, *l, "call<(repo/pkg/bip39/wordlist.List).Contains>(load(global<repo/pkg/bip39.wordList>), "+elem+")")
 	}
-	if wl == nil {
-		r.Undec("C03.word-counts.forall-words", c.P.Pos(val.Pos()), "validator has no range loop over the mnemonic")
+	gates := uniqEdges(scanGates(c, vb, wordsOK))
+	if len(gates) != 1 {
+		r.Check(false, "C03.word-counts.forall-words", c.P.Pos(val.Pos()), "the validator has one loop over the mnemonic (its own or a first-violation scanner's) that continues only if wordList.Contains(word) for the active list (found %d)", len(gates))
 	} else {
+		r.OK("C03.word-counts.forall-words", c.P.Pos(val.Pos()), "every iteration continues only if wordList.Contains(word) for the active list")
 		v := &ana.VSA{B: vb, Tracked: []string{"len(p0)"}, Ranges: [][2]int64{{0, 60}}}
 		sets, tuples := v.Run()
-		hdr := ana.SetOf(tuples, sets[wl.Header], 0)
+		hdr := ana.SetOf(tuples, sets[gates[0].From], 0)
 		r.Check(setEqual(hdr, want), "C03.word-counts.accept-set", c.P.Pos(val.Pos()), "word counts that pass the size guard (reach the per-word loop) over 0..60 = %s, expected {12,15,…,48}", setString(hdr))
-		elem := "load(iaddr(p0, bin<+>(ind<+1>(-1), 1)))"
-		ok := forAll(vb, *wl, "call<(repo/pkg/bip39/wordlist.List).Contains>(load(global<repo/pkg/bip39.wordList>), "+elem+")")
-		r.Check(ok, "C03.word-counts.forall-words", c.P.Pos(val.Pos()), "every iteration continues only if wordList.Contains(word) for the active list")
 		for _, e := range ana.Exits(val) {
 			if e.Panic {
 				r.Viol("C03.word-counts.no-panic", c.ipos(e.Instr), "explicit panic in the mnemonic validator")
@@ -202,7 +199,7 @@ func c03Decode(c *Ctx) {
 			}
 			errT := vb.Of(e.Results[len(e.Results)-1], e.Instr)
 			if errT.Is("nil") {
-				r.Check(e.Instr.Block() == wl.Exit || exitMustPass(val, e, []ana.Edge{{From: wl.Header, To: wl.Exit}}), "C03.word-counts.nil-after-loop", c.ipos(e.Instr), "nil is returned only after the word loop completed")
+				r.Check(exitMustPass(val, e, gates), "C03.word-counts.nil-after-loop", c.ipos(e.Instr), "nil is returned only after the word loop completed")
 			} else {
 				g, _ := ana.Find("load(global<repo/pkg/bip39.ErrInvalidMnemonic>)", errT)
 				r.Check(g != nil, "C03.word-counts.error-kind", c.ipos(e.Instr), "reject wraps ErrInvalidMnemonic")
@@ -446,9 +443,10 @@ func c03Encode(c *Ctx) {
 				nStore++
 				words := stripObj(bd["$words"])
 				// index runs from len(words)-1 down
-				_, okI := ana.Match("ind<-1>(bin<->(len(_), 1))", bd["$i"])
+				last := "ind<-1>(bin<->(alt(len(_), " + termPat(words.Arg(0)) + "), 1))" // len(words) is the size it was made with
+				_, okI := ana.Match(last, bd["$i"])
 				r.Check(okI, "C03.bit-layout.encode-direction", c.ipos(st), "words are filled from the last index downwards: %s", short(bd["$i"].String(), 120))
-				ge := edgesMatching(b, "bin<>=>(ind<-1>(bin<->(len(_), 1)), 0)")
+				ge := edgesMatching(b, "bin<>=>("+last+", 0)")
 				r.Check(len(ge) == 1, "C03.bit-layout.encode-all-words", c.ipos(st), "loop continues while i >= 0 (index 0 included)")
 				// word count
 				nb, okN := ana.Match("makeslice<*>(call<*>(bin<*>(len(p0), 8)), _)", words)
